@@ -87,6 +87,15 @@ def build_harness(build):
                     raise RuntimeError('harness build failed: ' + e[-2000:])
                 open(keyf, 'w').write(key)
             out[name] = dst
+        srcp = os.path.join(ROOT, 'harness', 'fsshim.c')
+        dst = os.path.join(BIN, 'fsshim.so')
+        key = file_hash([srcp])
+        if not (os.path.exists(dst) and os.path.exists(dst + '.key') and open(dst + '.key').read() == key):
+            rc, o, e = sh(['gcc', '-shared', '-fPIC', '-O1', '-o', dst, srcp, '-ldl'], timeout=120)
+            if rc != 0:
+                raise RuntimeError('fsshim build failed: ' + e[-2000:])
+            open(dst + '.key', 'w').write(key)
+        out['fsshim'] = dst
     return out
 
 
